@@ -152,7 +152,10 @@ def ref_parse_date(text):
 PATHS = [
     ("default", "/", "/"), ("none", None, None), ("plain", "/app/x", "/app/x"), ("space", "/a b", "/a%20b"),
     ("semi", "/a;b=c", "/a%3Bb=c"), ("nonascii", "/café/\U0001F600", None), ("quoted", "/a%20b", "/a%20b"),
-    ("ctl", "/a\r\nSet-Cookie: x=y", None), ("dq", '/a"b\\c', "/a%22b%5Cc"), ("safe", "/!$&'()*+,/:=@", "/!$&'()*+,/:=@"),
+    ("ctl", "/a\r\nSet-Cookie: x=y", None),
+    # a percent sign in the path must not switch the quoting off for the rest of it
+    ("pct_semi", "/a%20b; Secure", "/a%20b%3B%20Secure"), ("pct_nonascii", "/\u00e9/50%", "/%C3%A9/50%"),
+    ("pct_space", "/50% off", "/50%%20off"), ("dq", '/a"b\\c', "/a%22b%5Cc"), ("safe", "/!$&'()*+,/:=@", "/!$&'()*+,/:=@"),
 ]
 DOMAINS = [
     ("none", None, None), ("plain", "example.com", "example.com"), ("port", "example.com:8080", "example.com"),
